@@ -185,6 +185,51 @@ theorem evicted_or_expired_never_served (cfg : Config) (ops : List Op) (now : In
     have := h c tm hcf h1
     omega
 
+/-- the events of a history that starts from `New(cfg)`, newest first: every measurement handed to a
+cache and every entry that left a cache (by LRU eviction, by the clean-up, by anything else) -/
+def events (cfg : Config) (ops : List Op) : List Ev := evlogFrom (new cfg).1 [] ops
+
+/-- **Evicted or cleaned-up entries are never served** (history form): if the newest event about address
+`a` in verdict `v`'s cache is that its entry left the cache — it was evicted by the LRU or removed by the
+clean-up somewhere in the history and `a` was not measured with verdict `v` since — the query is not
+answered from that cache. -/
+theorem removed_never_served (cfg : Config) (ops : List Op) (now : Int) (a : String) (p v : Bool)
+    (h : lastEv (events cfg ops) a v = some (.removed a v)) :
+    answer cfg ops now a p ≠ .cached v := by
+  intro hc
+  obtain ⟨tm, _, h1, _, _⟩ := (query_spec (run cfg ops) now a p).cached v hc
+  obtain ⟨ts, hs⟩ := einv_run ops (new cfg).1 [] (new_einv cfg) v a tm h1
+  unfold events at h
+  rw [hs] at h
+  cases h
+
+/-- the `removed` events are exactly the disappearances: an entry that exists after a history and not after
+one more operation is logged as removed by that operation, and it is then the newest event about it -/
+theorem every_removal_is_logged (cfg : Config) (ops : List Op) (o : Op) (v : Bool) (a : String) (tm : Int)
+    (hb : (run cfg ops).timeOf v a = some tm) (ha : (run cfg (ops ++ [o])).timeOf v a = none) :
+    lastEv (events cfg (ops ++ [o])) a v = some (.removed a v) := by
+  unfold events
+  rw [evlogFrom_snoc]
+  apply lastEv_removed_of_step
+  apply disappearance_logged _ o v a tm hb
+  unfold run at ha
+  rw [runFrom_append] at ha
+  exact ha
+
+/-- **… until the address is measured again**: once the entry of (a, v) has left the cache (or never
+existed), any continuation of the history in which no probe of `a` answers `v` leaves it absent, and the
+query is not answered from verdict `v`'s cache — whatever else is queried, evicted or cleaned meanwhile. -/
+theorem removed_stays_unserved (cfg : Config) (ops1 ops2 : List Op) (now : Int) (a : String) (p v : Bool)
+    (habs : (run cfg ops1).timeOf v a = none)
+    (hquiet : ∀ tm, (tm, a, v) ∉ logFrom (run cfg ops1) [] ops2) :
+    answer cfg (ops1 ++ ops2) now a p ≠ .cached v := by
+  intro hc
+  obtain ⟨tm, _, h1, _, _⟩ := (query_spec (run cfg (ops1 ++ ops2)) now a p).cached v hc
+  have := absent_run ops2 (run cfg ops1) v a habs hquiet
+  unfold run at h1 this
+  rw [runFrom_append, this] at h1
+  cases h1
+
 /-- an eviction really removes the entry: the key handed to the evict callback is afterwards in neither
 the verdict map nor the recency list. -/
 theorem evicted_is_absent (e : Int) (m : VMap) (l : LRU) (k old : String) (now : Int)
@@ -266,5 +311,42 @@ example : answer cfg0 hist0 7300 "a" false = .probed false := by
 example : ∃ c, (run cfg0 hist0).cacheFor false = some c := cache_exists cfg0 false 3600 rfl (by decide) hist0
 -- an eviction happens in a concrete LRU
 example : ((LRU.mk 1 ["b"]).add "c").2 = some "b" := by decide
+
+-- a history in which the LRU (capacity 1) evicts "a" when "b" is stored: the eviction is the newest event
+-- about ("a", live), so `removed_never_served` applies …
+def cfg1 : Config := { durLive := .ok 7200, capLive := 1, durNonLive := .unset, capNonLive := 0 }
+example : lastEv (events cfg1 [.query 10 "a" true, .query 20 "b" true]) "a" true = some (.removed "a" true) := by
+  apply every_removal_is_logged cfg1 [.query 10 "a" true] (.query 20 "b" true) true "a" 10
+  · simp [run, runFrom, cfg1, step, query, new, initCached, lookupOpt, addOpt, Cache.lookup, Cache.add, LRU.add,
+      newLRUCache, onEvict, Tester.timeOf, Tester.cacheFor, Cache.vmap]
+  · simp [run, runFrom, cfg1, step, query, new, initCached, lookupOpt, addOpt, Cache.lookup, Cache.add, LRU.add,
+      newLRUCache, onEvict, Tester.timeOf, Tester.cacheFor, Cache.vmap]
+-- … and the evicted address, although measured only 20 ns ago, is probed again
+example : answer cfg1 [.query 10 "a" true, .query 20 "b" true] 30 "a" false = .probed false := by
+  simp [answer, run, runFrom, cfg1, step, query, new, initCached, lookupOpt, addOpt, Cache.lookup, Cache.add,
+    LRU.add, newLRUCache, onEvict]
+-- the clean-up logs what it removes as well
+example : lastEv (events cfg0 [.query 10 "a" true, .clear 8000]) "a" true = some (.removed "a" true) := by
+  apply every_removal_is_logged cfg0 [.query 10 "a" true] (.clear 8000) true "a" 10
+  · simp [run, runFrom, cfg0, step, query, new, initCached, lookupOpt, addOpt, Cache.lookup, Cache.add, LRU.add,
+      newLRUCache, onEvict, Tester.timeOf, Tester.cacheFor, Cache.vmap]
+  · have h := (cleanup_exact cfg0 [.query 10 "a" true] 8000 true
+        (Cache.lru 7200 (({} : VMap).insert "a" 10) { size := 2, items := ["a"] }) "a" 10
+        (by simp [run, runFrom, cfg0, step, query, new, initCached, lookupOpt, addOpt, Cache.lookup, Cache.add,
+              LRU.add, newLRUCache, onEvict, Tester.cacheFor]))
+    cases hx : (run cfg0 ([.query 10 "a" true] ++ [.clear 8000])).timeOf true "a" with
+    | none => rfl
+    | some t =>
+      exfalso
+      have e : run cfg0 ([Op.query 10 "a" true] ++ [.clear 8000]) = clear (run cfg0 [.query 10 "a" true]) 8000 := rfl
+      rw [e] at hx
+      have hsub := clear_timeOf _ _ _ _ _ hx
+      have ht : t = 10 := by
+        simp [run, runFrom, cfg0, step, query, new, initCached, lookupOpt, addOpt, Cache.lookup, Cache.add, LRU.add,
+          newLRUCache, onEvict, Tester.timeOf, Tester.cacheFor, Cache.vmap] at hsub
+        exact hsub.symm
+      subst ht
+      have := (h.mp hx).2
+      simp [Cache.exp] at this
 
 end CJ.Props.C18
